@@ -4,7 +4,13 @@ from . import rc
 from .core import VERIF
 
 def known_tags(ctx):
-    return [e['signature']['tag'] for e in ctx.known if e.get('status') == 'known' and isinstance(e.get('signature', {}).get('tag'), str)]
+    out = []
+    for e in ctx.known:
+        if e.get('status') != 'known': continue
+        t = e.get('signature', {}).get('tag')
+        if isinstance(t, str): out.append(t)
+        elif isinstance(t, dict) and 'glob' in t: out.append(t['glob'])
+    return out
 
 def replay_tier(ctx, exes, env=None, cwd=None):
     """replays/<Cnn>/*.json: saved minimal reproductions. A file that fails and is not matched by a known finding is a violation."""
